@@ -91,9 +91,9 @@ func runEmit(b *runner.Batch, idx int) {
 	}
 
 	targets := []int64{0, 1, 2, 3, 15, 16, 17, 1_000_000, 1_000_003, 1_000_000_000_000}
-	nemits := 200 / 16
+	nemits := 13
 	if b.Thorough() {
-		nemits = 5000 / 64
+		nemits = 80
 	}
 	irAcc := make([]util.Uint160, len(ir))
 	for i, k := range ir {
@@ -251,15 +251,15 @@ func sizeClass(v *big.Int) string {
 
 func c19Batches(tier string) int {
 	if tier == "thorough" {
-		return 512 + 64
+		return 1024 + 128
 	}
-	return 32 + 16
+	return 96 + 32
 }
 
 func runC19(b *runner.Batch) {
-	money := 32
+	money := 96
 	if b.Thorough() {
-		money = 512
+		money = 1024
 	}
 	if b.Index < money {
 		runMoney(b, b.Index)
